@@ -344,3 +344,59 @@ Proof.
 Qed.
 
 End DAProofs.
+
+(* ---------- the per-table variants used by the correspondence run are the definitions ---------- *)
+Section SharedProofs.
+Context {V : Type}.
+
+Lemma assoc_last_static (pats : list (bytes * V)) path : forall acc,
+  assoc_last (statics_of pats) path acc = static_lookup pats path acc.
+Proof.
+  induction pats as [|[k v] r IH]; intro acc; [reflexivity|].
+  unfold statics_of in *. cbn [filter fst static_lookup].
+  destruct (is_param_key k); cbn [negb andb]; [apply IH|].
+  cbn [assoc_last fst snd]. apply IH.
+Qed.
+
+Lemma router_lookup_pre_eq (pats : list (bytes * V)) p :
+  router_lookup_pre (statics_of pats) (model_trie pats) p = router_lookup pats p.
+Proof. unfold router_lookup_pre, router_lookup. now rewrite assoc_last_static. Qed.
+
+Lemma da_router_lookup_pre_eq f (pats : list (bytes * V)) d p :
+  da_router_lookup_pre f (statics_of pats) d p = da_router_lookup f pats d p.
+Proof. unfold da_router_lookup_pre, da_router_lookup. now rewrite assoc_last_static. Qed.
+
+Lemma if_andb (a b : bool) : (if a then b else false) = a && b.
+Proof. destruct a; reflexivity. Qed.
+
+Lemma forallb_filter_imp {A} (m X : A -> bool) l :
+  forallb X (filter m l) = forallb (fun x => negb (m x) || X x) l.
+Proof.
+  induction l as [|x r IH]; [reflexivity|]. cbn [filter forallb].
+  destruct (m x); cbn [negb orb forallb]; now rewrite IH.
+Qed.
+
+Lemma forallb_ext' {A} (f g : A -> bool) l : (forall x, f x = g x) -> forallb f l = forallb g l.
+Proof. intro H. induction l as [|x r IH]; [reflexivity|]. cbn [forallb]. now rewrite H, IH. Qed.
+
+Lemma existsb_ext' {A} (f g : A -> bool) l : (forall x, f x = g x) -> existsb f l = existsb g l.
+Proof. intro H. induction l as [|x r IH]; [reflexivity|]. cbn [existsb]. now rewrite H, IH. Qed.
+
+Lemma answer_ok_pre_eq (veqb : V -> V -> bool) (pats : list (bytes * V)) p ans :
+  answer_ok_pre veqb (entries_of pats) p ans = answer_ok veqb pats p ans.
+Proof.
+  unfold answer_ok_pre, answer_ok. destruct ans as [[v ps]|]; [|reflexivity].
+  cbv zeta. apply existsb_ext'. intro e. unfold cand_ok.
+  rewrite !if_andb, forallb_filter_imp, !andb_assoc. f_equal.
+  apply forallb_ext'. intro e'. now rewrite orb_assoc.
+Qed.
+
+Theorem check_shortcuts (veqb : V -> V -> bool) (pats : list (bytes * V)) p f (d : da V) ans :
+  router_lookup_pre (statics_of pats) (model_trie pats) p = router_lookup pats p /\
+  da_router_lookup_pre f (statics_of pats) d p = da_router_lookup f pats d p /\
+  answer_ok_pre veqb (entries_of pats) p ans = answer_ok veqb pats p ans.
+Proof.
+  split; [apply router_lookup_pre_eq|]. split; [apply da_router_lookup_pre_eq|apply answer_ok_pre_eq].
+Qed.
+
+End SharedProofs.
